@@ -58,6 +58,7 @@ structure Flags where
   powSetsUnits : Bool        -- `__pow__` (general exponent) returns the generic class with `units ** n`
   recipSetsUnits : Bool      -- the mixins' `__rtruediv__` set `units = x.units / self.units`
   omegaNeedsQuantity : Bool  -- the omega-domain cases of `__compat_add__` sit under a quantity test
+  canonFoldsHertz : Bool     -- `simplify_units` writes Hz as 1/s in units that have no named equivalent
   deriving DecidableEq, Repr
 
 structure Tables where
@@ -284,8 +285,12 @@ inductive Canon
 
 def radMode (u : U) : Int := if u.radian = 0 then 0 else if u.radian = 1 then 1 else -1
 
+/-- `unit.subs(Hz, 1/s)` -/
+def foldHz (u : U) : U := { u with hertz := 0, second := u.second - u.hertz }
+
 def canon (u : U) : Canon :=
-  if T.knownDims.contains (dimU u) then .known (dimU u) (radMode u) else .raw u
+  if T.knownDims.contains (dimU u) then .known (dimU u) (radMode u)
+  else .raw (if T.flags.canonFoldsHertz then foldHz u else u)
 
 /-- the units test at the top of `__compat_add__` -/
 def unitsClash (c : Cfg) (a x : Opd) : Bool :=
